@@ -767,3 +767,89 @@ func (p *Prog) ContentOrigin(v ssa.Value) *Org {
 	}
 	return o
 }
+
+// Sig renders the descriptor for ledger keys: like String, but in-module callees are named by
+// their shape (receiver type and signature) instead of their name, and nothing is cached.
+func (o *Org) Sig() string { return o.sigRender(0) }
+
+func (o *Org) sigCallee() string {
+	if o.Callee != nil {
+		if pk := fnPkg(o.Callee); pk != nil && strings.HasPrefix(pk.Pkg.Path(), modPath) {
+			return fnShape(o.Callee)
+		}
+		return FuncName(o.Callee)
+	}
+	return o.CalleeName()
+}
+
+func (o *Org) sigRender(depth int) string {
+	if o == nil {
+		return "_"
+	}
+	if depth > 10 {
+		return "…"
+	}
+	r := func(x *Org) string { return x.sigRender(depth + 1) }
+	switch o.Kind {
+	case "field":
+		return r(o.Base) + "." + o.Field.Name()
+	case "deref":
+		return "*" + r(o.Base)
+	case "binop":
+		return "(" + r(o.X) + " " + o.Op.String() + " " + r(o.Y) + ")"
+	case "unop":
+		return o.Op.String() + r(o.Base)
+	case "index":
+		return r(o.Base) + "[" + r(o.Y) + "]"
+	case "lookup":
+		s := r(o.Base) + "{" + r(o.Y) + "}"
+		if o.Res == 1 {
+			s += "#ok"
+		}
+		return s
+	case "slice":
+		return r(o.Base) + "[" + r(o.X) + ":" + r(o.Y) + "]"
+	case "make":
+		if o.X != nil {
+			return "make(" + r(o.X) + ")"
+		}
+		return "make"
+	case "typeassert":
+		s := r(o.Base) + ".(" + types.TypeString(o.AssTyp, func(p *types.Package) string { return "" }) + ")"
+		if o.Res == 1 {
+			s += "#ok"
+		}
+		return s
+	case "phi":
+		var parts []string
+		for _, a := range o.Alts {
+			parts = append(parts, r(a))
+		}
+		sort.Strings(parts)
+		return "φ{" + strings.Join(parts, " | ") + "}"
+	case "range":
+		return "range(" + r(o.Base) + ")"
+	case "next":
+		return fmt.Sprintf("next(%s)#%d", r(o.Base), o.Res)
+	case "call", "outarg", "outrecv":
+		var parts []string
+		if o.Recv != nil {
+			parts = append(parts, "recv="+r(o.Recv))
+		}
+		for _, a := range o.Args {
+			parts = append(parts, r(a))
+		}
+		s := o.sigCallee() + "(" + strings.Join(parts, ", ") + ")"
+		switch o.Kind {
+		case "outarg":
+			return fmt.Sprintf("out#%d:%s", o.ArgIdx, s)
+		case "outrecv":
+			return "outrecv:" + s
+		}
+		if o.Res > 0 {
+			s += fmt.Sprintf("#%d", o.Res)
+		}
+		return s
+	}
+	return o.render(depth)
+}
